@@ -9,3 +9,6 @@ import WcModel.Properties.C05
 #print axioms WcModel.C05.C05_partial
 #print axioms WcModel.C05.C05_partial_results
 #print axioms WcModel.C05.star_is_below
+#print axioms WcModel.C05.spec_exec_iff
+#print axioms WcModel.C05.spec_exec_top_iff
+#print axioms WcModel.C05.C05_partial_follow
